@@ -218,16 +218,16 @@ def check_nasa9(case, ctx):
     for T in case['T']:
         cands = [i for i in range(nseg) if pts[i] <= T <= pts[i + 1]]
         assert cands, 'generated T outside every segment'
-        H = obj.get_HoRT(T=T)
+        got = (obj.get_CpoR(T=T), obj.get_HoRT(T=T), obj.get_SoR(T=T))
         ok = False
-        for i in cands:       # at an interior boundary either neighbour is accepted
-            h, hs = ref.tsum(ref.nasa9_terms(case['a'][i], T)[1])
-            if abs(H - h) <= 1e-12 * (abs(h) + hs):
+        for i in cands:       # at an interior boundary either neighbour is accepted, but the same one for Cp, H and S
+            terms = ref.nasa9_terms(case['a'][i], T)
+            if all(abs(g_ - ref.tsum(t_)[0]) <= 1e-12 * (abs(ref.tsum(t_)[0]) + ref.tsum(t_)[1]) for g_, t_ in zip(got, terms)):
                 ok = True
                 seg = i
                 break
         if not ok:
-            ctx.fail('C02.nasa9/segment', 'T=%r HoRT=%r matches none of the containing segments %r' % (T, H, cands))
+            ctx.fail('C02.nasa9/segment', 'T=%r (Cp,H,S)/R=%r matches none of the containing segments %r' % (T, got, cands))
             seg = cands[0]
         scales = _scalar_vs_ref(ctx, 'C02.nasa9', obj, T, ref.nasa9_terms(case['a'][seg], T))
         allsc.append(scales)
